@@ -1,4 +1,6 @@
 """Input generators for the register-protocol checks (C06-C09).  These build *inputs* only; every verdict comes from TLC."""
+import zlib
+
 END, ESC = 192, 219
 T_RREQ, T_RRESP, T_WREQ, T_WRESP, T_META = 0, 1, 2, 3, 15
 
@@ -50,7 +52,27 @@ def wire(tr, o):
     return slip(o) if tr == 0 else varint(len(o)) + list(o)
 
 
+def flavour_of(w):
+    """source flavour of the harness (octet-style, chunk-style, fragmenting chunk-style, chunk-style with getbuffer extension):
+    derived from the wire octets so that every family exercises all four; the model's verdict does not depend on it"""
+    return zlib.crc32(bytes(x & 255 for x in w)) % 4
+
+
+def flavoured(line):
+    """give a TLC-emitted rx case (field 5 = allocation failure 0/1) a source flavour and an allocator flavour"""
+    head, sep, tail = line.partition(' | ')
+    f = head.split()
+    if f[0] != 'rx':
+        return line
+    nd = int(f[9])
+    w = list(map(int, f[11 + nd:]))
+    k = zlib.crc32(bytes(x & 255 for x in w))
+    f[5] = str(int(f[5]) | (((k >> 8) & 1) << 1) | ((k % 4) << 2))
+    return ' '.join(f) + sep + tail
+
+
 def rx(tr, mem16, cap, w, mustfail=0, allocfail=0, verdict=0, vaddr=0, data=()):
+    allocfail |= flavour_of(w) << 2
     return 'rx %d %d %d %d %d %d %d %d %d %s %d %s' % (mustfail, tr, mem16, cap, allocfail, verdict, vaddr >> 16, vaddr & 0xFFFF,
                                                         len(data), ' '.join(map(str, data)), len(w), ' '.join(map(str, w)))
 
@@ -64,7 +86,7 @@ def session(rnd, tr, mem16, cap, units):
     stream = []
     for o, kw in units:
         stream += wire(tr, o)
-    sc = ['rxopen %d %d %d %d %s' % (tr, mem16, cap, len(stream), ' '.join(map(str, stream)))]
+    sc = ['rxopen %d %d %d %d %s' % (tr | (rnd.randrange(4) << 2), mem16, cap, len(stream), ' '.join(map(str, stream)))]
     for o, kw in units:
         sc.append(rxn(tr, mem16, cap, wire(tr, o), **kw))
     return sc
